@@ -32,13 +32,13 @@ structure Img (C : Type) where
   children : List (Option C)
   keysW : BitVec 32
   keysA : Bytes
-  deriving Repr
+  deriving DecidableEq, Repr
 
 /-- what `*ref` designates when a method returns: an inner node (tag, image) or a plain reference value -/
 inductive Out (C : Type) where
   | node (tag : Nat) (img : Img C)
   | child (c : Option C)
-  deriving Repr
+  deriving DecidableEq, Repr
 
 structure Res (C : Type) where
   out : Out C
